@@ -66,7 +66,7 @@ CLAIMS = {
          "invariant as a representation function); corollaries C08_result, C08_calls, C08_prev_is_last_output, C08_all_abandoned, C08_map (always-converting converter that leaves the previous output alone = input.map f). Scripts include inputs of thousands of elements / hundreds of KiB (size thresholds).", "4 C08", V_NOTE,
          "Lean 4 refinement theorem (loop invariant by induction) + correspondence, debug and optimised builds"),
  "C09": ("C09_cleanup (failure at any call: every live output and every unconsumed input dropped exactly once, nothing leaked, "
-         "buffer released, that very error/payload returned, no later call) and C09_no_memory_error, for all lengths, converters "
+         "buffer released, that very error/payload returned, no later call) and C09_no_memory_error, C09_every_input_accounted (input = handed to the converter ++ dropped unconsumed), C09_never_leaks (every outcome under any layouts: nothing live left, failed runs free the buffer), for all lengths, converters "
          "and failure positions. Side scripts: zero-size and plain-data inputs, conversion run inside a destructor during unwinding.", "4 C09", V_NOTE, "Lean 4 refinement theorem + correspondence with drop ledger and counting allocator"),
  "C10": ("C10_refuse / C10_accept: layouts differing in size or alignment are refused before any element is read or the converter "
          "called, the input dropped normally; equal layouts never refused; C10_refusal_depends_on_layouts_only (not on converter or input); C10_variants_never_refused (record types of two variants of one definition are always accepted).", "4 C10", V_NOTE, "Lean 4 theorem + correspondence over a type-pair matrix"),
